@@ -1,5 +1,6 @@
 import Ktm.CoreC23
 import Ktm.Requeue
+import Ktm.Growth
 /-! # C01 — the trial lifecycle is a well-formed state machine under any interleaving
 
 Model: `Core.create / update / endT` over an arbitrary algorithm record `Alg` (random, grid, Hyperband
@@ -125,6 +126,15 @@ theorem ended_is_recorded (alg : Alg V A) (o : Oracle V A) (h : Inv o) (id : Nat
                     score := (endDecision alg o.maxRetries t oc).sc })))) with
     | true => rw [hs] at hna; simp at hna
     | false => left; simp
+
+/-- tuners may hand back changed hyperparameters when they end a trial (`old_trial.hyperparameters =
+trial.hyperparameters`, `_record_values` again): the lifecycle invariant holds in every state reachable by request
+lists that contain such `endWith id values outcome` requests with arbitrary values and any re-recording rule -/
+theorem lifecycle_invariant_with_reported_values (alg : Alg V A) (record : A → V → V → A) (a0 : A)
+    (maxTrials : Option Nat) (maxRetries maxConsec : Nat) (ops : List (Growth.GOp V)) :
+    Inv (Growth.grun alg record (init a0 maxTrials maxRetries maxConsec) ops) ∨
+      (Growth.grun alg record (init (V := V) a0 maxTrials maxRetries maxConsec) ops).aborted = true :=
+  Growth.inv_greachable alg record _ ops (inv_init a0 maxTrials maxRetries maxConsec)
 
 /-- non-vacuity: a concrete three-tuner run with a retry reaches a state satisfying the invariant -/
 example : let alg : Alg Nat Unit := { populate := fun _ c => ((), .run c), onEnd := fun a _ => a, scoreOf := fun l => l.getLast?.join }
